@@ -177,7 +177,7 @@ def run(ctx):
             scheds.append('processes')
             nproc_cases += 1
         wd = np.asarray(want.data)
-        mx = float(np.max(np.abs(wd))) + 1e-300 if wd.size else 1.0
+        mx = float(np.max(np.abs(np.where(np.isfinite(wd), wd, 0)))) + 1e-300 if wd.size else 1.0
         tol = (2e-6 if single else 1e-12) * mx
         for sch in scheds:
             ctx.count('scheduler:' + sch)
@@ -192,7 +192,14 @@ def run(ctx):
                 ctx.fail('dask_result_differs_in_metadata', dict(inp, scheduler=sch), impl=why)
                 break
             gd = np.asarray(gc.data)
-            e = float(np.max(np.abs(gd - wd))) if wd.size else 0.0
+            # non-finite values (a chirp evaluated on a band that reaches 0 Hz gives NaN on both paths) must sit at the same places
+            fin = np.isfinite(wd)
+            if gd.shape == wd.shape and not np.array_equal(fin, np.isfinite(gd)):
+                ctx.fail('dask_values_differ', dict(inp, scheduler=sch), impl='non-finite values at different positions')
+                break
+            if not fin.all():
+                ctx.count('numpy_result_has_nonfinite_values')
+            e = float(np.max(np.abs(np.where(fin, gd - wd, 0)))) if wd.size else 0.0
             ctx.ratio(e, tol)
             if not (e <= tol) or gd.dtype != wd.dtype:
                 ctx.fail('dask_values_differ', dict(inp, scheduler=sch), impl=e, model=tol)
